@@ -22,6 +22,7 @@ def run(ctx):
     big_dims = ([(32, 2)] if MODE == "insertion" else [(31, 2)]) if ctx.quick else ([(32, 2), (32, 1), (31, 2), (20, 2), (16, 2), (8, 2)] if MODE == "insertion" else [(31, 2), (31, 1), (20, 2), (16, 2), (8, 2)])
     beh += mtblib.generate_big(ctx, MODE, big_dims, sample=40 if ctx.quick else 400)
     n, acc = mtblib.replay(ctx, "C02", MODE, beh, share)
+    mtblib.hint_level(ctx, MODE)
     mtblib.end_to_end(ctx, MODE, beh, 8 if ctx.quick else 60)
     tiny = mtblib.tiny_relation(ctx, MODE, [(7, 1, 1)] if ctx.quick else [(7, 1, 1), (11, 1, 1), (13, 1, 1), (7, 1, 2)] + ([(5, 1, 2)] if MODE == "deletion" else []))
     ctx.cov["tiny_field_tuples"] = tiny
